@@ -14,6 +14,8 @@ fi
 # make sure cargo notices the change (mtime)
 git diff --name-only | xargs -r touch
 cd /verif
+# evidence written while a seeded change is applied must not survive: keep the real files aside
+rm -rf /verif/build/evidence.keep; cp -r /verif/evidence /verif/build/evidence.keep
 for p in "$@"; do
   out=$(./dv check "$p" 2>&1); code=$?
   echo "$p exit=$code $(echo "$out" | grep -m1 '^VIOLATION' | cut -c1-200)"
@@ -21,5 +23,6 @@ for p in "$@"; do
      python3 -c "import json,sys; r=json.load(open('$f')); print('   ', r.get('kind'), r.get('class'), (r.get('why') or str([b['name'] for b in r.get('broken',[])]))[:260])"
   done
 done
+rm -rf /verif/evidence; mv /verif/build/evidence.keep /verif/evidence
 cd /repo && git checkout -- . && git status --short | grep -v '^??' | head -3
 git diff --name-only HEAD | xargs -r touch
